@@ -262,8 +262,8 @@ def lollipop(c, p):
 
 
 def big_cases(rs, tier):
-    """large binary graphs ('B', matrix): judged by an independent float Brandes oracle and by the cross-routine identities;
-    the algorithm models are run for n <= 32 only (the definition-level model is O(n^4))"""
+    """large binary graphs ('B', matrix): judged by the independent exact Brandes oracle (brandes_exact) and by the cross-routine identities;
+    the algorithm models are run for n <= 34 only (the definition-level model is O(n^4))"""
     out = []
     lol = [(50, 185), (12, 120), (5, 20), (6, 24)] if tier == 'quick' else \
         [(50, 185), (12, 120), (60, 180), (30, 150), (80, 160), (5, 20), (6, 24), (8, 22), (4, 28), (20, 200)]
@@ -280,34 +280,122 @@ def big_cases(rs, tier):
     return out
 
 
-def brandes_float(L):
-    """independent Brandes (BFS, floats) for large binary graphs -> hop distances, BC, EBC"""
+STRESS_SIZES = [32, 33, 34, 64, 65, 66, 96, 97, 128, 129]
+
+
+def bead_string(beads, par, weighted=False):
+    """hub -{par parallel routes}- hub ... (beads times): par^beads equally short paths between the end hubs.
+    weighted: one of the routes is a direct connection of length 2 tying with the 1+1 routes"""
+    hubs = list(range(beads + 1)); nxt = beads + 1
+    E = []
+    for b in range(beads):
+        for k in range(par):
+            if weighted and k == 0:
+                E.append((hubs[b], hubs[b + 1], 2))
+            else:
+                E += [(hubs[b], nxt, 1), (nxt, hubs[b + 1], 1)]; nxt += 1
+    W = [[0] * nxt for _ in range(nxt)]
+    for a, b, l in E:
+        W[a][b] = W[b][a] = l
+    return W
+
+
+def lattice(k, length=1):
+    W = [[0] * (k * k) for _ in range(k * k)]
+    for i in range(k):
+        for j in range(k):
+            for (a, b) in ((i + 1, j), (i, j + 1)):
+                if a < k and b < k:
+                    W[i * k + j][a * k + b] = W[a * k + b][i * k + j] = length
+    return W
+
+
+def stress_cases(rs, tier):
+    """size-dependent fast paths and path-count overflow: cheap structures at n = 32,33,34,64,65,66,96,97,128,129 (binary and
+    with lengths {1,2}), and graphs with astronomically many equally short paths (bead strings 3^40, diamond chains 2^64,
+    k x k lattices) -- judged by the exact big-integer Brandes oracle"""
+    out = []
+
+    def add(W, label):
+        out.append(('B', tuple(tuple(int(x) for x in r) for r in W), label))
+
+    for idx, n in enumerate(STRESS_SIZES):
+        C = np.zeros((n, n), dtype=int)
+        for i in range(n):
+            C[i, (i + 1) % n] = C[(i + 1) % n, i] = 1
+        kind = idx % 3
+        if kind == 0:
+            add(C, 'size:cycle')                              # even n: every antipodal pair is tied
+        elif kind == 1:
+            D = np.zeros((n, n), dtype=int)                    # directed cycle with skip-2 chords: many ties
+            for i in range(n):
+                D[i, (i + 1) % n] = 1; D[i, (i + 2) % n] = 1
+            add(D, 'size:dircycle+chords')
+        else:
+            Ld = np.zeros((n, n), dtype=int)                   # ladder (2 x n/2 grid), plus a pendant node if n is odd
+            h = n // 2
+            for i in range(h):
+                Ld[i, h + i] = Ld[h + i, i] = 1
+                if i + 1 < h:
+                    Ld[i, i + 1] = Ld[i + 1, i] = 1; Ld[h + i, h + i + 1] = Ld[h + i + 1, h + i] = 1
+            if n % 2:
+                Ld[n - 1, 0] = Ld[0, n - 1] = 1
+            add(Ld, 'size:ladder')
+        R = rand_graph(rs, n, 2.5 / n, bool(rs.rand() < .5))
+        add(R.astype(int), 'size:rand-sparse')
+        Wt = rand_graph(rs, n, 3.0 / n, bool(rs.rand() < .5), wmax=2)
+        add(Wt.astype(int) + (C if idx % 2 else 0) * (Wt == 0), 'size:weighted{1,2}')
+    # astronomically many equal shortest paths (3^40 and 2^64 exceed 2^63)
+    add(bead_string(40, 3), 'paths:bead3x40')
+    add(bead_string(40, 3, weighted=True), 'paths:bead3x40-weighted')
+    add(bead_string(64, 2), 'paths:diamond-chain64')
+    add(lattice(12), 'paths:lattice12'); add(lattice(9, 2), 'paths:lattice9-len2')
+    if tier == 'thorough':
+        add(bead_string(70, 2, weighted=True), 'paths:diamond-chain70-weighted')
+        add(bead_string(30, 5), 'paths:bead5x30')
+        add(lattice(20), 'paths:lattice20'); add(lattice(35), 'paths:lattice35')
+    return out
+
+
+def brandes_exact(L):
+    """independent Brandes for large graphs with non-negative integer lengths: Dijkstra with a heap, shortest-path counts as
+    exact Python integers (they reach 3^40 and beyond), dependencies in 80-digit Decimal arithmetic (error ~1e-78 relative,
+    i.e. exact for the 1e-9 comparison) -> distances, BC, EBC as floats"""
+    import heapq, decimal
+    ctx = decimal.Context(prec=80)
+    D1 = decimal.Decimal(1)
     n = len(L)
-    nbr = [[j for j in range(n) if L[i][j] != 0 and j != i] for i in range(n)]
-    BC = [0.0] * n
+    nbr = [[(j, L[i][j]) for j in range(n) if L[i][j] != 0 and j != i] for i in range(n)]
+    BC = [decimal.Decimal(0)] * n
     EBC = [[0.0] * n for _ in range(n)]
     dist = []
     for s in range(n):
         d = [None] * n; d[s] = 0
         sig = [0] * n; sig[s] = 1
-        order = [s]; preds = [[] for _ in range(n)]
-        k = 0
-        while k < len(order):
-            u = order[k]; k += 1
-            for w in nbr[u]:
-                if d[w] is None:
-                    d[w] = d[u] + 1; order.append(w)
-                if d[w] == d[u] + 1:
+        preds = [[] for _ in range(n)]
+        done = [False] * n; order = []
+        heap = [(0, s)]
+        while heap:
+            du, u = heapq.heappop(heap)
+            if done[u] or du != d[u]:
+                continue
+            done[u] = True; order.append(u)
+            for w, l in nbr[u]:
+                nd = du + l
+                if d[w] is None or nd < d[w]:
+                    d[w] = nd; sig[w] = sig[u]; preds[w] = [u]; heapq.heappush(heap, (nd, w))
+                elif nd == d[w] and not done[w]:
                     sig[w] += sig[u]; preds[w].append(u)
-        dep = [0.0] * n
+        dep = [decimal.Decimal(0)] * n
         for w in reversed(order):
+            cw = ctx.divide(ctx.add(D1, dep[w]), decimal.Decimal(sig[w]))
             for v in preds[w]:
-                c = sig[v] / sig[w] * (1.0 + dep[w])
-                dep[v] += c; EBC[v][w] += c
+                c = ctx.multiply(decimal.Decimal(sig[v]), cw)
+                dep[v] = ctx.add(dep[v], c); EBC[v][w] += float(c)
             if w != s:
-                BC[w] += dep[w]
+                BC[w] = ctx.add(BC[w], dep[w])
         dist.append(d)
-    return dist, BC, EBC
+    return dist, [float(x) for x in BC], EBC
 
 
 def near_tie_cases(rs, count):
@@ -433,7 +521,7 @@ def run_chunk(arg):
         for f in routines:
             A0 = make_input(A, dtype, order)
             Akeep = A0.copy()
-            st, o = call(getattr(bct, f), A0, t=5.0, retry=10)   # a timeout is a verdict here: re-tried once with 10x the budget
+            st, o = call(getattr(bct, f), A0, t=5.0 if n <= 300 else 300.0, retry=10)   # a timeout is a verdict here: re-tried once with 10x the budget
             cnt('calls:' + f); cnt(st + ':' + f)
             if st == 'timeout':      # survived the 10x retry: the routine does not return on an in-domain input
                 cnt('timeouts')
@@ -451,7 +539,7 @@ def run_chunk(arg):
                 R['viol'].append((f, 'input-modified', {'L': L, 'den': den, 'dtype': dtype, 'order': order}, {'routine': f}))
         if not mal:
             if big:
-                dist, BC, EBC = brandes_float(L); sig = None
+                dist, BC, EBC = brandes_exact(L); sig = None
             else:
                 dist, sig, BC, EBC = brute(L if den == 1 else [[Fr(x, den) for x in r] for r in L])
             disconnected = any(dist[s][t] is None for s in range(n) for t in range(n))
@@ -500,7 +588,7 @@ def run_chunk(arg):
                 lines.append('spec n=%d L=%s' % (n, ms)); meta.append(('spec', (L, den, dtype, order), (dist, sig, BC, EBC), None))
             if big:
                 dist = sig = BC = EBC = None      # float oracle: no exact comparison with the model
-            for f in (routines if (not big or n <= 32) else []):     # every routine has its own model line (betweenness_wei: `betweennessWei`, not a projection of the edge model)
+            for f in (routines if (not big or n <= 34) else []):     # every routine has its own model line (betweenness_wei: `betweennessWei`, not a projection of the edge model)
                 if f in outs:
                     lines.append('%s n=%d L=%s' % (f, n, ms)); meta.append((f, (L, den, dtype, order), (dist, sig, BC, EBC), outs[f]))
     if lean_ok and lines:
@@ -620,7 +708,7 @@ def main():
                       'structured tie-rich graphs (paths, cycles, stars, grids, cube, complete bipartite, diamond chains), random n=5..9 graphs '
                       '(lengths 1..3, densities .12-.85, isolated nodes / two components / sources and sinks forced in half of them), dyadic rational '
                       'lengths k/den, den in {2,4,8} (exact in floats; exhaustive small graphs with lengths {1/den, 2/den}, random n=4..9 with halves/wholes, '
-                      'any k/den <= 2, mixed short/long), given to the weighted routines as numerators/den and to the model as numerators + den; large binary graphs (lollipops K_c+P_p up to n=235, sparse random n=60..200, n=16..30; float Brandes oracle + cross-routine identities, models for n<=32); near ties: lengths k/4 + j*2^-e, e=30..40 '
+                      'any k/den <= 2, mixed short/long), given to the weighted routines as numerators/den and to the model as numerators + den; large binary graphs (lollipops K_c+P_p up to n=235, sparse random n=60..200, n=16..30; exact big-integer Brandes oracle + cross-routine identities, models for n<=34); sizes n=32,33,34,64,65,66,96,97,128,129 (cycles, chorded directed cycles, ladders, sparse random, lengths {1,2}) and graphs with 3^40 / 2^64 equally short paths (bead strings, diamond chains, lattices); near ties: lengths k/4 + j*2^-e, e=30..40 '
                       '(den 2^40, exact in floats) next to exact ties; representation axis on 40% of the cases: dtype (int64/int32/bool/uint8/float32/float64 for binary, '
                       'int64/float64 for integer lengths) and memory order (C, Fortran, transposed view, strided view) of the same logical matrix; every case is run '
                       'through all applicable routines. non-trivial = distinct matrix on which some node has non-zero betweenness '
@@ -660,7 +748,7 @@ def main():
         for n in (2, 3, 4, 5):
             cases += enum_cases(n, False, 2) + enum_cases(n, False, 3)
         ck.cov['exhaustive'] = True
-        cases += structured() + random_cases(rs, 6000) + rational_cases(rs, 6000, 'thorough') + near_tie_cases(rs, 4000) + big_cases(rs, 'thorough') + malformed_cases(rs, 400)
+        cases += structured() + random_cases(rs, 6000) + rational_cases(rs, 6000, 'thorough') + near_tie_cases(rs, 4000) + big_cases(rs, 'thorough') + stress_cases(rs, 'thorough') + malformed_cases(rs, 400)
     else:
         cases = []
         for n in (1, 2, 3):
@@ -669,7 +757,7 @@ def main():
             cases += enum_cases(n, False, 2) + enum_cases(n, False, 3)
         cases += enum_cases(4, True, 2) + enum_cases(4, True, 3, rs, 3000)
         cases += enum_cases(5, False, 2) + enum_cases(5, False, 3, rs, 1500)
-        cases += structured() + random_cases(rs, 800) + rational_cases(rs, 1200, 'quick') + near_tie_cases(rs, 600) + big_cases(rs, 'quick') + malformed_cases(rs, 100)
+        cases += structured() + random_cases(rs, 800) + rational_cases(rs, 1200, 'quick') + near_tie_cases(rs, 600) + big_cases(rs, 'quick') + stress_cases(rs, 'quick') + malformed_cases(rs, 100)
     if not ck.replay:     # homogeneous chunks: seeded shuffle, then one chunk per worker in the quick tier
         perm = np.random.RandomState(ck.seed + 12345).permutation(len(cases))
         cases = [cases[i] for i in perm]
